@@ -1,7 +1,7 @@
 """C08 - removal and disconnection delete exactly the owned structure and nothing else."""
 from vf.registry import add
 from harness.topo_steps import mk, REMOVE_OPS, ENC
-for _k, _tiers in (('S3', ("quick", "thorough")), ('S2', ("thorough",))):
+for _k, _tiers in (('S4', ("quick", "thorough")), ('S3', ("thorough",)), ('S2', ("thorough",))):
     for _op in REMOVE_OPS:
         add("c08/%s/%s" % (_k, _op), mk('C08', _k, _op), timeout=900, tiers=_tiers, encodes=ENC,
             bounds="skeleton %s, one %s with symbolic arguments; post-snapshot == pre-snapshot minus the ownership closure of the addressed element "
